@@ -31,10 +31,11 @@ import (
 // has used that much CPU. Normal batches need well under a second.
 
 const (
-	cpuBoundSec  = 30                // CPU seconds one child (batch of <= batchSize files, 3 calls each) may use
-	memBoundByte = 3 << 29           // heap+stacks the child may obtain from the OS
-	wallWatchdog = 300 * time.Second // generous: firing without the CPU bound being reached is inconclusive
-	batchSize    = 12
+	cpuBoundSec     = 30                // CPU seconds one child (batch of <= batchSize files, 3 calls each) may use
+	cpuBoundHandSec = 8                 // the same for a batch of hand-made outlines (<= 7 outline items, 3 pages each)
+	memBoundByte    = 3 << 29           // heap+stacks the child may obtain from the OS
+	wallWatchdog    = 300 * time.Second // generous: firing without the CPU bound being reached is inconclusive
+	batchSize       = 12
 )
 
 // Bookmarks and ExportBookmarksFile validate first (the relaxed validator repairs some cycles);
@@ -88,7 +89,11 @@ func selfCPU() time.Duration {
 // childMain: os.Args[1:] = files. Never returns.
 func childMain() {
 	api.DisableConfigDir()
-	lim := syscall.Rlimit{Cur: cpuBoundSec, Max: cpuBoundSec}
+	bound := uint64(cpuBoundSec)
+	if n, err := strconv.Atoi(os.Getenv("C36_CPU_BOUND")); err == nil && n > 0 {
+		bound = uint64(n)
+	}
+	lim := syscall.Rlimit{Cur: bound, Max: bound}
 	_ = syscall.Setrlimit(syscall.RLIMIT_CPU, &lim)
 	debug.SetMaxStack(256 << 20) // an unbounded recursion ends in a fatal "stack exceeds" quickly
 	out := bufio.NewWriter(os.Stdout)
@@ -173,7 +178,7 @@ type callResult struct {
 
 // runChild runs one child over files and returns per file, per api results. A call that was in
 // progress when the child died gets the verdict derived from how it died; later ones "not-run".
-func runChild(files []string) [][]callResult {
+func runChild(files []string, cpuBound int) [][]callResult {
 	res := make([][]callResult, len(files))
 	for i := range res {
 		res[i] = make([]callResult, len(apis))
@@ -184,7 +189,7 @@ func runChild(files []string) [][]callResult {
 	ctx, cancel := context.WithTimeout(context.Background(), wallWatchdog)
 	defer cancel()
 	cmd := exec.CommandContext(ctx, os.Args[0], files...)
-	cmd.Env = append(os.Environ(), "C36_CHILD=1", "GOTRACEBACK=single")
+	cmd.Env = append(os.Environ(), "C36_CHILD=1", "GOTRACEBACK=single", fmt.Sprintf("C36_CPU_BOUND=%d", cpuBound))
 	var stdout bytes.Buffer
 	stderr := &tailBuffer{max: 32 << 10}
 	cmd.Stdout, cmd.Stderr = &stdout, stderr
@@ -244,8 +249,8 @@ func runChild(files []string) [][]callResult {
 	tail := stderr.String()
 	switch {
 	case r.Outcome == "memory":
-	case cpu >= (cpuBoundSec-1)*time.Second:
-		*r = callResult{Outcome: "cpu", CPUms: cpu.Milliseconds(), Detail: fmt.Sprintf("child used %.1fs CPU (bound %ds), killed by %v", cpu.Seconds(), cpuBoundSec, killedBy)}
+	case cpu >= time.Duration(cpuBound-1)*time.Second:
+		*r = callResult{Outcome: "cpu", CPUms: cpu.Milliseconds(), Detail: fmt.Sprintf("child used %.1fs CPU (bound %ds), killed by %v", cpu.Seconds(), cpuBound, killedBy)}
 	case ctx.Err() != nil:
 		*r = callResult{Outcome: "watchdog", CPUms: cpu.Milliseconds(), Detail: fmt.Sprintf("wall-clock watchdog after %v with %.1fs CPU", wallWatchdog, cpu.Seconds())}
 	default:
@@ -294,11 +299,11 @@ func firstLines(s string, n int) string {
 
 // runHostile runs all files (in order) through children, restarting after a death so that every
 // file gets a verdict.
-func runHostile(files []string) [][]callResult {
+func runHostile(files []string, cpuBound int) [][]callResult {
 	all := make([][]callResult, len(files))
 	start := 0
 	for start < len(files) {
-		res := runChild(files[start:])
+		res := runChild(files[start:], cpuBound)
 		progressed := 0
 		for i := range res {
 			if allNotRun(res[i]) {
